@@ -51,12 +51,36 @@ fn set_table(t: &mut Tape) -> bool {
     ok
 }
 
-harness!(#[kani::stub(item_vectored_to_state, table_stub)] multiset_laws, 100, |t| {
+fn setup(t: &mut Tape) -> Option<(u8, u8, u8)> {
+    let canonical = set_table(t);
+    if !canonical {
+        return None;
+    }
+    Some((t.u8() % 3, t.u8() % 3, t.u8() % 3)) // repeated items allowed
+}
+
+// one law per query: modular-arithmetic equalities over several symbolic 256-bit states are
+// hard SAT instances (associativity alone: 85 s)
+harness!(#[kani::stub(item_vectored_to_state, table_stub)] ms_order2, 100, |t| {
     let mut t = Tape::new(t);
-    let canonical = set_table(&mut t);
-    vassume!(canonical);
-    let (a, b, c) = (t.u8() % 3, t.u8() % 3, t.u8() % 3); // repeated items allowed
-    // order independence
+    let it = setup(&mut t);
+    vassume!(it.is_some());
+    let (a, b, _) = it.unwrap();
+    let mut s1 = Setsum::default();
+    s1.insert(&[a]);
+    s1.insert(&[b]);
+    let mut s2 = Setsum::default();
+    s2.insert(&[b]);
+    s2.insert(&[a]);
+    assert!(s1 == s2, "insertion order of two items does not matter");
+    vcover!(a != b, "two distinct items");
+    vcover!(a == b, "one item twice");
+});
+harness!(#[kani::stub(item_vectored_to_state, table_stub)] ms_order3, 100, |t| {
+    let mut t = Tape::new(t);
+    let it = setup(&mut t);
+    vassume!(it.is_some());
+    let (a, b, c) = it.unwrap();
     let mut s1 = Setsum::default();
     s1.insert(&[a]);
     s1.insert(&[b]);
@@ -65,28 +89,47 @@ harness!(#[kani::stub(item_vectored_to_state, table_stub)] multiset_laws, 100, |
     s2.insert(&[c]);
     s2.insert(&[a]);
     s2.insert(&[b]);
-    let mut s3 = Setsum::default();
-    s3.insert(&[b]);
-    s3.insert(&[c]);
-    s3.insert(&[a]);
-    assert!(s1 == s2 && s2 == s3, "insertion order does not matter");
-    // union is the sum
+    assert!(s1 == s2, "insertion order of three items does not matter");
+    vcover!(a != b && b != c && a != c, "three distinct items");
+});
+harness!(#[kani::stub(item_vectored_to_state, table_stub)] ms_union, 100, |t| {
+    let mut t = Tape::new(t);
+    let it = setup(&mut t);
+    vassume!(it.is_some());
+    let (a, b, c) = it.unwrap();
+    let mut all = Setsum::default();
+    all.insert(&[a]);
+    all.insert(&[b]);
+    all.insert(&[c]);
     let mut x = Setsum::default();
     x.insert(&[a]);
     x.insert(&[b]);
     let mut y = Setsum::default();
     y.insert(&[c]);
-    assert!(x + y == s1, "setsum of a union is the sum of the setsums");
-    assert!(s1 - y == x, "subtracting a part leaves the rest");
-    // remove undoes insert
-    let mut z = s1;
-    z.remove(&[c]);
-    assert!(z == x, "remove undoes insert");
+    assert!(x + y == all, "setsum of a union is the sum of the setsums");
+    vcover!(a == b && b == c, "one item three times");
+});
+harness!(#[kani::stub(item_vectored_to_state, table_stub)] ms_remove, 100, |t| {
+    let mut t = Tape::new(t);
+    let it = setup(&mut t);
+    vassume!(it.is_some());
+    let (a, b, _) = it.unwrap();
+    let mut x = Setsum::default();
+    x.insert(&[b]);
+    let mut z = Setsum::default();
+    z.insert(&[a]);
+    z.insert(&[b]);
     z.remove(&[a]);
+    assert!(z == x, "remove undoes insert");
     z.remove(&[b]);
     assert!(z == Setsum::default(), "removing everything gives the empty setsum");
-    vcover!(a == b && b == c, "one item three times");
-    vcover!(a != b && b != c && a != c, "three distinct items");
+    let mut y = Setsum::default();
+    y.insert(&[a]);
+    let mut both = Setsum::default();
+    both.insert(&[a]);
+    both.insert(&[b]);
+    assert!(both - y == x, "subtracting a part leaves the rest");
+    vcover!(a != b, "two distinct items");
 });
 
 // ---- SHA3 anchors: concrete items through the real sha3 code --------------------------------
@@ -114,4 +157,4 @@ harness!(sha3_anchor_abc, 1, |t| {
     }
 });
 
-harness_list!(hash_to_state_def, multiset_laws, sha3_anchor_empty, sha3_anchor_abc);
+harness_list!(hash_to_state_def, ms_order2, ms_order3, ms_union, ms_remove, sha3_anchor_empty, sha3_anchor_abc);
